@@ -47,8 +47,8 @@ type c06Target = struct {
 func bindValues(r *prng.R) []byte {
 	var sb strings.Builder
 	vals := []string{"nil", "1", "2.5", `"s"`, "true", "false", "nil", "1 == 2", `"a" + 1`, "0"}
-	fields := []string{"f", "ff", "g", "opt", "level", "remote", "field", "enabled", "local_port", "max_latency", "h_1"}
-	bt := prng.Pick(r, []string{"t", "tunnel", "server", "blk"})
+	fields := []string{"f", "ff", "g", "opt", "level", "remote", "field", "enabled", "local_port", "max_latency", "h_1", "listen", "addr"}
+	bt := prng.Pick(r, []string{"t", "tunnel", "server", "blk", "cfg", "cfg"})
 	n := r.Range(1, 3)
 	if r.Chance(1, 3) {
 		sb.WriteString("var u\n")
@@ -285,6 +285,21 @@ func (c06) Run(t *testing.T, sc *Scenario) *Outcome {
 		var o2, l2 bytes.Buffer
 		return bcl.Unmarshal(sc.Src, &c06Target{}, bcl.OptOutput(&o2), bcl.OptLogger(&l2))
 	})
+	if strings.HasPrefix(sc.Class, "bind-values") || sc.Idx%7 == 0 {
+		// two distinct struct types that share a name, of different sizes, one after the other
+		call("Unmarshal(same-named type A)", func() error {
+			var o2, l2 bytes.Buffer
+			return bcl.Unmarshal(sc.Src, localCfgA(), bcl.OptOutput(&o2), bcl.OptLogger(&l2))
+		})
+		call("Unmarshal(same-named type B)", func() error {
+			var o2, l2 bytes.Buffer
+			type cfg struct {
+				Name string
+				F    any `bcl:"listen"`
+			}
+			return bcl.Unmarshal(sc.Src, &cfg{}, bcl.OptOutput(&o2), bcl.OptLogger(&l2))
+		})
+	}
 	call("Unmarshal(slice target)", func() error {
 		var o2, l2 bytes.Buffer
 		return bcl.Unmarshal(sc.Src, &[]c06Target{}, bcl.OptOutput(&o2), bcl.OptLogger(&l2))
